@@ -235,18 +235,22 @@ def check(case, stats, scratch, profile):
 
     def file_rel(i):
         return os.path.normpath(os.path.join(files[i]["dir"], files[i]["name"]))
-    # every bad import of a reachable file is reported, with its own kind, at its own line
+    # every bad import of a reachable file is reported at its own line (the wording is the compiler's business; the
+    # kind-specific phrase is only recorded), and no diagnostic sits on the line of a good import
+    import_lines = {}
+    for i in reach:
+        for k_, imp in enumerate(files[i]["imports"]):
+            import_lines[(file_rel(i), k_ + 1 + (1 if i == 0 else 0))] = imp["kind"]
     for i, line, kind in bad:
-        want = BAD_KINDS[kind]
         hits = [d for d in diags if os.path.normpath(d[1]) == file_rel(i) and d[2] == line]
-        if not any(want in d[0] for d in hits):
-            raise Fail(f"C28:bad-import-not-reported:{kind}", f"file {file_rel(i)} line {line}: expected a diagnostic containing `{want}`; diagnostics at that line: {hits}; all: {diags[:6]}\n--- tree ---\n{desc_tree}", replay)
-    # good imports are never reported
-    import_msgs = tuple(BAD_KINDS.values())
+        if not hits:
+            raise Fail(f"C28:bad-import-not-reported:{kind}", f"file {file_rel(i)} line {line} holds a bad import ({kind}) but no diagnostic is located there; all: {diags[:6]}\n--- tree ---\n{desc_tree}", replay)
+        stats.cls("kind-phrase-present" if any(BAD_KINDS[kind] in d[0] for d in hits) else "kind-phrase-absent")
     bad_lines = {(file_rel(i), line) for i, line, _ in bad}
     for msg, fname, line in diags:
-        if any(w in msg for w in import_msgs) and (os.path.normpath(fname), line) not in bad_lines:
-            raise Fail("C28:good-import-reported", f"diagnostic `{msg}` at {fname}:{line}, where no bad import is\n--- tree ---\n{desc_tree}", replay)
+        key = (os.path.normpath(fname), line)
+        if key in import_lines and key not in bad_lines:
+            raise Fail("C28:good-import-reported", f"diagnostic `{msg}` at {fname}:{line}, the line of a good import\n--- tree ---\n{desc_tree}", replay)
     if planted_reached:
         cnt = sum(1 for msg, fname, line in diags if "expected a value of `i64` but found `bool`" in msg and os.path.normpath(fname) == file_rel(planted))
         if cnt != 1:
